@@ -89,8 +89,15 @@ InitC01 == \E s \in Seqs(1..Len(C01Alpha), MaxUnits + 1), pre \in 0..2 :
    /\ LET body == Pick(C01Alpha, s)
           stream == (IF pre = 0 THEN <<>> ELSE IF pre = 1 THEN <<88, 32>> ELSE <<88, 63, 32>>) \o body IN
       sc = Sc(C01Table, C01Scripts, 16, <<stream, <<>>>>, [hdrs |-> <<>>])
+(* C01: a block that announces more bytes than arrive, at different offsets, executed by a zero-length call *)
+InitC01b == \E n \in 1..7, k \in 0..6, pre \in 1..4 :
+   /\ k < n /\ (n + k + pre) % NParts = Part
+   /\ LET p == IF pre = 1 THEN <<88, 32>> ELSE IF pre = 2 THEN <<88, 63, 32>> ELSE IF pre = 3 THEN <<88, 32, 49, 44>> ELSE <<88, 32, 49, 50, 51, 52, 53, 44, 32>>
+          stream == p \o <<35, 49, 48 + n>> \o [i \in 1..k |-> 96 + i] IN
+      sc = Sc(C01Table, C01Scripts, 16, <<stream, <<>>>>, [hdrs |-> <<>>])
 Next == UNCHANGED sc
 SpecC01 == InitC01 /\ [][Next]_sc
+SpecC01b == InitC01b /\ [][Next]_sc
 SpecC17 == InitC17 /\ [][Next]_sc
 SpecC02 == InitC02 /\ [][Next]_sc
 SpecC05 == InitC05 /\ [][Next]_sc
